@@ -57,6 +57,8 @@ type c32Endpoint struct {
 	expectPeer                 *c32Party // honest remote: the identity that must come out
 	mustAuth                   bool
 	postPackets                int
+	link                       string // connection this endpoint belongs to (both ends of a connection share it)
+	mustNotAuth                string // non-empty: this session only replays recorded bytes; being authenticated at all is the violation
 }
 
 type c32Party struct {
@@ -292,6 +294,7 @@ func mutateBytes(t *kit.Tape, label string, b []byte) []byte {
 var c32Attacks = []string{
 	"honest", "honest-uncompressed-key", "relay-other-session", "pubA-sigM", "sigM-other-secret",
 	"mutate-public-key", "mutate-signature", "signature-before-secure-exchange", "replay-victims-own-proof", "post-auth-identity-switch",
+	"replay-recorded-transcript",
 }
 
 func runC32(rc *kit.RunCtx) {
@@ -311,6 +314,9 @@ func runC32(rc *kit.RunCtx) {
 	// in profile honest both authenticators are configured for exactly one drawn suite/AEAD (so that the negotiated
 	// suite is the drawn one); in profile adversary the defaults stay (negotiates the first common suite)
 	pairSuite, pairAead := -1, 0
+	var tapped [][]byte // attack replay-recorded-transcript: every write of the dialer of the tapped honest session, in order
+	forceAtoB, tapDialer := false, false
+	var lastAcceptorEp *c32Endpoint
 	honestPair := func(tag string, configure bool) {
 		// A dials B (or B dials A); both ends are real authenticators
 		if configure && pairSuite < 0 {
@@ -322,12 +328,21 @@ func runC32(rc *kit.RunCtx) {
 			}
 		}
 		dialer, acceptor := A, B
-		if t.Choose("pair.dir", 2) == 1 {
+		if !forceAtoB && t.Choose("pair.dir", 2) == 1 {
 			dialer, acceptor = B, A
 		}
 		cd, ca := s.newLink(dialer.name+tag, acceptor.name+tag, mode)
+		if tapDialer {
+			// an on-path eavesdropper: records what the dialer writes, forwards it unchanged
+			cd.out.tamper = func(frame []byte) [][]byte {
+				tapped = append(tapped, append([]byte(nil), frame...))
+				return [][]byte{frame}
+			}
+		}
 		e1 := dialer.serve(s, cd, false, "out"+tag)
 		e2 := acceptor.serve(s, ca, true, "in"+tag)
+		e1.link, e2.link = "pair"+tag, "pair"+tag
+		lastAcceptorEp = e2
 		e1.expectPeer, e1.mustAuth = acceptor, true
 		e2.expectPeer, e2.mustAuth = dialer, true
 		e1.attack, e2.attack = "honest-pair", "honest-pair"
@@ -353,7 +368,7 @@ func runC32(rc *kit.RunCtx) {
 	}
 
 	// ---- adversary profile
-	attack := c32Attacks[t.Weighted("attack", 2, 1, 4, 3, 3, 3, 3, 2, 2, 2)]
+	attack := c32Attacks[t.Weighted("attack", 2, 1, 4, 3, 3, 3, 3, 2, 2, 2, 4)]
 	victimAccepts := t.Choose("victim.role", 2) == 0 // B accepts M's connection / B dials M
 	ss := suites[t.Choose("m.suite", 2)]
 	sa := c31Suites[t.Choose("m.aead", len(c31Suites))]
@@ -365,6 +380,11 @@ func runC32(rc *kit.RunCtx) {
 	rc.Event("C32 adversary attack=%s victimAccepts=%v suite=%d aead=%d srcAccepts=%v chunk=%s", attack, victimAccepts, ss, sa, srcAccepts, chunkModeNames[mode])
 	rc.Probe("attack:" + attack)
 
+	if attack == "replay-recorded-transcript" {
+		// A dials B honestly while M listens on the wire; afterwards M opens its own connection to B and
+		// replays A's bytes verbatim
+		withPair, forceAtoB, tapDialer, victimAccepts = true, true, true, true
+	}
 	if withPair {
 		honestPair("#h", false)
 	}
@@ -390,6 +410,13 @@ func runC32(rc *kit.RunCtx) {
 	cyB, cyM := s.newLink("B.y", "M.y", mode)
 	epY := B.serve(s, cyB, victimAccepts, "y")
 	epY.attack = attack
+	epY.link = "y"
+	if epX != nil {
+		epX.link = "x"
+	}
+	if epZ != nil {
+		epZ.link = "z"
+	}
 	endpoints = append(endpoints, epY)
 
 	s.spawn("M", func() {
@@ -439,6 +466,30 @@ func runC32(rc *kit.RunCtx) {
 			}
 		}
 
+		if attack == "replay-recorded-transcript" {
+			hp := lastAcceptorEp
+			s.yield(func() bool { return hp.authed || hp.p.IsClosed() })
+			if !hp.authed || len(tapped) == 0 {
+				rc.Event("M: nothing to replay (the honest session did not complete)")
+				return
+			}
+			rc.Probe("transcript_recorded")
+			epY.mustNotAuth = "it only replayed, byte for byte, what A sent in an earlier session"
+			for _, f := range tapped {
+				if _, err := cyM.Write(f); err != nil {
+					break
+				}
+			}
+			rc.Event("M: replayed %d recorded writes of A", len(tapped))
+			// swallow whatever the victim answers until it gives up
+			buf := make([]byte, 4096)
+			for i := 0; i < 64; i++ {
+				if _, err := cyM.Read(buf); err != nil {
+					break
+				}
+			}
+			return
+		}
 		// ---- the attacked session Y
 		my := newMSession(rc, M, cyM, !victimAccepts)
 		present := func(pub, sig []byte, errText string) bool {
@@ -551,6 +602,23 @@ func c32Judge(rc *kit.RunCtx, parties []*c32Party, endpoints []*c32Endpoint) {
 		}
 		return nil
 	}
+	// "The secret of this very session": an honest party never ends up with the same session secret on two
+	// different connections (its own contribution to the key exchange is fresh per connection), otherwise a
+	// proof made for one session is a proof for the other.
+	bySecret := map[string]*c32Endpoint{}
+	for _, ep := range endpoints {
+		sec := ep.p.VerifSessionSecret()
+		if len(sec) == 0 || ep.link == "" {
+			continue
+		}
+		if o, ok := bySecret[string(sec)]; ok && o.link != ep.link {
+			rc.Violate("session-secret-reused", "two-connections", "%s/%s and %s/%s are different connections but hold the same session secret", o.owner.name, o.label, ep.owner.name, ep.label)
+			return
+		} else if !ok {
+			bySecret[string(sec)] = ep
+		}
+	}
+	rc.Metric("session_secrets_compared", int64(len(bySecret)))
 	nAuth, nRej := 0, 0
 	for _, ep := range endpoints {
 		where := ep.owner.name + "/" + ep.label
@@ -576,6 +644,10 @@ func c32Judge(rc *kit.RunCtx, parties []*c32Party, endpoints []*c32Endpoint) {
 			continue
 		}
 		nAuth++
+		if ep.mustNotAuth != "" {
+			rc.Violate("identity-without-proof", sig, "%s: the connection was authenticated as %s although %s", where, whoIs(rc, ep.authedID), ep.mustNotAuth)
+			return
+		}
 		if ep.authCount > 1 {
 			rc.Violate("authenticated-twice", sig, "%s: handed on as authenticated %d times", where, ep.authCount)
 			return
